@@ -130,6 +130,11 @@ def call_value(ex, f, e, st, awaited):
 
 
 def dispatch(ex, recv, method, e, kwargs, st, awaited, yield_from):
+    over = getattr(ex.c, 'dispatch_override', {}).get(method)
+    if over is not None:
+        # modularity: the caller is verified against the abstract contract of the method (e.g. the body
+        # contract of a job), whatever the class of the receiver; overriding methods must refine it
+        return call_with_args(ex, ex.reg.get(over), recv, e.args, kwargs, st, awaited, e, yield_from=yield_from)
     table = resolve(ex.reg, method)
     if not table:
         raise Unsupported('no contract for method %s (line %d)' % (method, e.lineno))
